@@ -366,7 +366,18 @@ class Evaluator:
             if spread is not None:
                 return self._decide_test(st, spread)
         out: List[Tuple[_State, bool]] = []
+        sized = False
+        if isinstance(node, (ast.Name, ast.Attribute)):
+            try:
+                ty = self._tenv().type_of(node)
+                sized = ty[0] in ("list", "dict", "set", "tuple")  # a container, not Optional: its truth value is `len(x) != 0`
+            except Exception:
+                sized = False
         for s, t in self._eval(st, node):
+            if sized and t[0] in ("attr", "sym") and self._truth(s, t) is None:
+                empty = ("cmp", "==", ("call", ("name", "len"), (t,), (), None), const(0))
+                out.extend((s2, not b) for s2, b in self._decide(s, empty, node))
+                continue
             out.extend(self._decide(s, t, node))
         return out
 
